@@ -366,7 +366,14 @@ var $select = comms => {
     $block(); // Throws inside a JavaScript callback; nothing may be queued before that.
     var entries = [];
     var thisGoroutine = $curGoroutine;
-    var f = { $blk() { return this.selection; } };
+    var f = {
+        $blk() {
+            if (this.closedDuringSend) {
+                $throwRuntimeError("send on closed channel"); // in the selecting goroutine
+            }
+            return this.selection;
+        }
+    };
     var removeFromQueues = () => {
         for (var i = 0; i < entries.length; i++) {
             var entry = entries[i];
@@ -391,9 +398,11 @@ var $select = comms => {
                     comm[0].$recvQueue.push(queueEntry);
                     break;
                 case 2: /* send */
-                    var queueEntry = () => {
-                        if (comm[0].$closed) {
-                            $throwRuntimeError("send on closed channel");
+                    var queueEntry = closed => {
+                        if (closed) {
+                            // The channel is being closed while this send case is pending: the
+                            // sender panics when it resumes, not the goroutine calling close.
+                            f.closedDuringSend = true;
                         }
                         f.selection = [i];
                         removeFromQueues();
